@@ -581,6 +581,12 @@ func checkC06(p *Prog, r *Report) {
 		r.Check(ok && n > 0, "peer-reflexive candidate address is canonical", p.Pos(f.Body.Pos()), "Address: canonicalAddr(remote.Addr()).String()", "the peer-reflexive candidate's address string is not derived from canonicalAddr: for an IPv4-in-IPv6 source it differs from the signalled candidate's spelling, the prflx candidate is not superseded and the transport-address pair is listed twice under two ids")
 	}
 
+	// ---- R6.12 a pair id always addresses the listed pair ----------------------------------------------------------
+	r.Rule("R6.12", "WriteToPair resolves its pair id through the agent's pair index inside the task loop on every call and writes only to what it found there in state Succeeded (rule of C07 R7.1): no second index (a cache of the last pair, a copy held by the Conn) that Restart, the Failed wipe or a peer-reflexive supersession do not maintain can stand in for the listed pair.", 8)
+	if cw, wtp := p.Fn("Conn.Write"), p.Fn("Conn.WriteToPair"); r.Anchor("Conn.Write", cw != nil) && r.Anchor("Conn.WriteToPair", wtp != nil) {
+		checkWritePath(p, r, cw, wtp)
+	}
+
 	// ---- R6.11 a cancelled gather cycle contributes nothing ----------------------------------------------------------
 	r.Rule("R6.11", "A task that a function submits to the loop on behalf of a gather cycle (the function has a context parameter other than the loop) and that writes agent state re-checks that context inside the task before it touches anything: taskloop.Run can accept the task after the cycle was cancelled by Restart (both cases of its select ready), so a check made before submitting does not keep a cancelled cycle's candidate or state out of the new generation.", 2)
 	checkCycleTasksRecheck(p, r)
